@@ -42,6 +42,10 @@ class Stats:
         self.evaluations = self.diffs = self.judged = 0
         self.strict_fail = self.deficit = self.positional = 0
         self.wcases = self.anomalies = self.prefix_matches = 0
+        self.e2e = self.e2e_diffs = 0
+        self.e2e_classes = collections.Counter()
+        self.e2e_kinds = collections.Counter()
+        self.e2e_lens = collections.Counter()
         self.clause_hist = collections.Counter()
         self.reported = collections.Counter()
         self.fam = collections.Counter()
@@ -52,10 +56,56 @@ class Stats:
         self.samples = []
 
 
+E2E_STAGES = (("gw", "gv", "gu"), ("bw", "bv", "bu"), ("block", "pp"))
+
+
+def process_e2e(ctx, st, elines):
+    """End-to-end stream: route spec -> graph refs -> backend group -> split_clients block (real pipeline).
+    Judge: the property evaluated from the SPEC (k-th line <-> k-th backendRef). Correspondence: every stage equals
+    the Lean model (createBackendRef, newBackendGroup, distributions)."""
+    if not elines:
+        return
+    st.e2e += len(elines)
+    fs = [fields(l) for l in elines]
+    for l, f, v in zip(elines, fs, pdriver(ctx, "e2ejudge", elines)):
+        for x in f["sk"].split(","):
+            st.e2e_classes[x] += 1
+        st.e2e_kinds[f["kind"]] += 1
+        st.e2e_lens[len(f["sk"].split(","))] += 1
+        if v == "ok":
+            continue
+        if v == "bad-op":
+            ctx.broken("e2e judge could not decode a harness line", replay={"line": l})
+            continue
+        for clause in v.split(" ")[1:]:
+            sig = signature(clause).replace("C15:", "C15:route-spec:", 1)
+            st.clause_hist[sig] += 1
+            st.reported[sig] += 1
+            if st.reported[sig] <= 2:
+                ctx.finding(sig, f"{f['kind']} route rule with backendRefs weights [{f['sw']}] classes [{f['sk']}] "
+                                 f"(resolve [{f['sv']}]): clause {clause} fails; backend group weights [{f['bw']}] "
+                                 f"valid [{f['bv']}] upstreams [{f['bu']}]; block {f['block']}",
+                            {"kind": f["kind"], "spec_weights": f["sw"], "spec_classes": f["sk"], "spec_targets": f["su"],
+                             "backend_group": {"w": f["bw"], "v": f["bv"], "u": f["bu"]}, "block": f["block"],
+                             "pp": f["pp"], "clause": clause})
+    for l, f, o in zip(elines, fs, pdriver(ctx, "e2emodel", elines)):
+        g = fields(o)
+        for name, keys in zip(("graph BackendRefs", "dataplane BackendGroup", "generated block"), E2E_STAGES):
+            if o == "bad-op" or any(g.get(k) != f.get(k) for k in keys):
+                st.e2e_diffs += 1
+                if st.e2e_diffs <= 3:
+                    ctx.broken(f"model and pipeline disagree at stage '{name}' for backendRefs weights [{f['sw']}] "
+                               f"classes [{f['sk']}]: pipeline " + " ".join(f"{k}={f.get(k)}" for k in keys) +
+                               " / model " + " ".join(f"{k}={g.get(k)}" for k in keys), replay={"line": l, "model": o})
+                break
+
+
 def process(ctx, st, lines):
     anomalies = [l for l in lines if l.startswith("X ")]
     wlines = [l for l in lines if l.startswith("W\t")]
-    cases = [l for l in lines if not l.startswith("X ") and not l.startswith("W\t")]
+    elines = [l for l in lines if l.startswith("E\t")]
+    cases = [l for l in lines if l[:2] not in ("X ", "W\t", "E\t")]
+    process_e2e(ctx, st, elines)
     st.anomalies += len(anomalies)
     for a in anomalies[:3]:
         ctx.finding("C15:generator-anomaly:" + a[2:].split("\t")[0].split(":")[0][:40],
@@ -156,9 +206,9 @@ def run(ctx):
     cp = os.path.join(vcheck.VERIF, "corpus", "C15", "weights.txt")
     base = ["-corpus", cp] if os.path.exists(cp) else []
     if ctx.tier == "quick":
-        runs = [["-seed", ctx.seed, "-n", 12000, "-exhaustive", 30] + base]
+        runs = [["-seed", ctx.seed, "-n", 12000, "-exhaustive", 30, "-e2e", 1500] + base]
     else:
-        runs = [["-seed", ctx.seed, "-n", 0, "-exhaustive", 200] + base]
+        runs = [["-seed", ctx.seed, "-n", 0, "-exhaustive", 200, "-e2e", 60000] + base]
         runs += [["-seed", ctx.seed + 1000 * k, "-n", 100000] for k in range(1, 11)]
     st = Stats()
     for args in runs:
@@ -169,17 +219,21 @@ def run(ctx):
         process(ctx, st, lines)
         if len(ctx.brokens) > 20 or len(ctx.findings) > 200:
             break
+    if st.e2e == 0 and getattr(ctx, "harness_ok", False):
+        ctx.broken("harness produced no end-to-end route rules")
     if st.wcases == 0 and getattr(ctx, "harness_ok", False):
         ctx.broken("harness produced no createBackendRef weight cases")
 
     ctx.finish({
-        "evaluations": st.evaluations,
+        "evaluations": st.evaluations + st.e2e,
         "distinct_nontrivial": len(st.nontrivial),
-        "rule": "backend groups rendered by the real config.Generator (split_clients block + proxy_pass of the rule's "
+        "rule": "(a) route rules (HTTPRoute/GRPCRoute, 2..16 backendRefs incl. unresolvable and duplicate ones) sent through the "
+                "real ChangeProcessor/BuildGraph/BuildConfiguration/Generate pipeline, every stage compared with the Lean "
+                "model and the property judged from the spec; (b) backend groups rendered by the real config.Generator (split_clients block + proxy_pass of the rule's "
                 "location, compared string for string with the Lean model and judged by the Lean judge); non-trivial = "
                 "distinct (weights, validity) with >= 2 backends of which >= 2 have non-zero weight",
         "samples": st.samples[:6],
-        "traces_validated_against_impl": st.evaluations - st.diffs,
+        "traces_validated_against_impl": st.evaluations - st.diffs + st.e2e - st.e2e_diffs,
         "correspondence_diffs": st.diffs,
         "judged_rules": st.judged,
         "distinct_cases": len(st.distinct),
@@ -191,6 +245,11 @@ def run(ctx):
         "positional_reading_nonlast_floor_last_remainder_holds_on": st.positional,
         "differing_blocks_equal_to_prefix_float_algorithm": st.prefix_matches,
         "createBackendRef_weight_cases": st.wcases,
+        "e2e_route_rules_through_real_pipeline": st.e2e,
+        "e2e_stage_diffs": st.e2e_diffs,
+        "e2e_backendref_class_histogram": dict(st.e2e_classes),
+        "e2e_route_kind_histogram": dict(st.e2e_kinds),
+        "e2e_backendref_count_histogram": {str(k): v for k, v in sorted(st.e2e_lens.items())},
         "nonlast_share_one_hundredth_below_exact_two_decimal_value": st.deficit,
         "generator_anomalies": st.anomalies,
     }, assumptions=[
